@@ -137,6 +137,8 @@ def clash_inputs(ctx, rng):
         for name, chains in environments(rng):
             for o in ([], ["--nodebump", "--noopt"]):
                 out.append({"what": f"env {name}#{rep}", "text": gen.pdb_text(chains), "args": ["--ff=AMBER"] + o})
+    from .. import corpus as shared
+    out += shared.variants(ctx.quick, rng)
     for f, o in (("1AJJ.pdb", []), ("cterm_hid.pdb", ["--nodebump", "--noopt"]), ("1BX8.pdb", ["--noopt"]), ("5vav_cyclic_peptide.pdb", ["--nodebump"])):
         out.append({"what": f, "text": open(os.path.join(DATA, f)).read(), "args": ["--ff=PARSE"] + o})
     if not ctx.quick:
@@ -204,6 +206,11 @@ def _run_job(job):
                     backbonemove = d
             names = list(cur)
             bonded = [(m, n) for i, m in enumerate(names) for n in names[i + 1:] if _dist(cur[m][0], cur[n][0]) < 1.95]
+            refmap = getattr(getattr(rr, "reference", None), "map", None)
+            if refmap:
+                # a recognised residue: only pairs its topology bonds (a clash in the input is not a bond)
+                bonded = [(m, n) for m, n in bonded if m not in refmap or n not in refmap
+                          or n in refmap[m].bonds or m in refmap[n].bonds]
             for m, n in bonded:
                 dv = abs(_dist(cur[m][1], cur[n][1]) - _dist(cur[m][0], cur[n][0]))
                 if dv > bonddev:
@@ -238,7 +245,7 @@ def run(ctx):
                 "topology; traced runs: peptides with waters placed on future hydrogen positions (clashes), omitted side-chain "
                 "atoms, hydrogen-bond environments, repository structures, with the options that forbid movement among them. "
                 "Distinct = distinct case / run; non-trivial = case at a chain terminus or branch point / run with a torsion event")
-    ctx.assumptions += ["bonded pairs among input heavy atoms = pairs closer than 1.95 A in the input",
+    ctx.assumptions += ["bonded pairs among input heavy atoms = pairs closer than 1.95 A in the input that the residue's topology bonds (all such pairs for residues without topology)",
                         "coordinates compared at the 0.001 A the input carries; deviations measured by the harness in float, "
                         "thresholds (0.001 A, 0.05 deg) judged by TLC"]
     ctx.trusted += ["vlib/tracer.py (torsion, stage and atom wrappers)", "vlib/checks/c04.py (geometry measurements)", "TLC 1.8"]
